@@ -206,5 +206,14 @@ func (a sortableNodeArray) compare(lhs *CandidateNode, rhs *CandidateNode, dateT
 		return 1
 	}
 
+	// a number and a non-number: numbers first (comparing their texts gives a cyclic order)
+	lhsIsNumber := lhsTag == "!!int" || lhsTag == "!!float"
+	rhsIsNumber := rhsTag == "!!int" || rhsTag == "!!float"
+	if lhsIsNumber && !rhsIsNumber {
+		return -1
+	} else if !lhsIsNumber && rhsIsNumber {
+		return 1
+	}
+
 	return strings.Compare(lhs.Value, rhs.Value)
 }
